@@ -1,5 +1,7 @@
 import Martian.Typing
 import Martian.TypingPipeline
+import Martian.TypingRun
+import Martian.TypingStrict
 import Driver.Util
 import Driver.C17
 
@@ -36,8 +38,12 @@ Pipelines (Martian/TypingPipeline.lean):
   pipe  ::= <name> <nins> (<id> <type>){nins} <nouts> (<id> <type>){nouts} <ncalls> <cstm>{ncalls}
             <binds> <wild> <nretain> <exp>{nretain}
   pipe    <pipe>               → `ok (<callid>:<shape>)*` | `call <i> dupcall` | `call <i> mods <cls,…>`
-                                 | `call <i> binds <cls,…>` | `ret <cls,…>` | `retain <i>`
+                                 | `call <i> binds <cls,…>` | `unused <hexlist>` | `ret <cls,…>` | `retain <i>`
                                  (first failure, in the order of `checkPipeline`; must agree with `validPipeline`)
+  top     <cstm>               → `ok <shape>` | `bad <cls,…>`   (top-level call statement, `checkTop`)
+  path    <type|-> <type> <json> <path> new|old → `<json>` | `none`   (`pathVal` / `wholeRT`: LazyArgumentMap.Path
+                                 with destination type, source type, value; `old` = before repair 85e056c)
+  hyp     <env> <type> <exp>   → `<t.wf> <e.wf> <holeFree>`
   sretain <nouts> (<out> <type>){nouts} <hexlist>   → `true` | `false`
   strict  <env> <type> <exp>   → `<validExp> <overStrict>`
 -/
@@ -290,6 +296,7 @@ def diagPipe (p : Pipeline) : String :=
     match diagCalls { self := p.ins, calls := [] } 0 "" p.calls with
     | .error s => s
     | .ok (Γ, acc) =>
+      if !(unusedInputs p).isEmpty then "unused " ++ hexList (unusedInputs p) else
       match callErrsW Γ p.outs.toList p.ret p.retWild with
       | e :: es => "ret " ++ ",".intercalate ((e :: es).map showBindErr)
       | [] =>
@@ -297,7 +304,22 @@ def diagPipe (p : Pipeline) : String :=
         | some i => s!"retain {i}"
         | none => "ok" ++ acc
   -- the diagnosis must agree with the function the theorems are about
-  if validPipeline p == verdict.startsWith "ok" then verdict else "model-inconsistent " ++ verdict
+  if validPipelineU p == verdict.startsWith "ok" then verdict else "model-inconsistent " ++ verdict
+
+/-- diagnosis of a top-level call next to `checkTop` -/
+def diagTop (c : CallStm) : String :=
+  let cls : List String :=
+    (if c.wild.isSome then ["wildcard"] else []) ++
+    (modErrs emptyEnv c.callee c.binds none c.mods).map showModErr ++
+    (if !c.mods.usings.isEmpty && (usingDisabled c.mods.usings).isSome then ["disabled"] else []) ++
+    (if !c.mods.usings.isEmpty && effective c.mods.kwPreflight (usingVal 1 c.mods.usings) then ["preflight"] else []) ++
+    (callErrs emptyEnv c.callee.params c.binds).map showBindErr
+  let verdict :=
+    match cls, checkTop c with
+    | [], some sh => "ok " ++ showShapeTok sh
+    | [], none => "bad inconsistent-model"
+    | cs, _ => "bad " ++ ",".intercalate cs
+  if validTop c == verdict.startsWith "ok" then verdict else "model-inconsistent " ++ verdict
 
 def handle (op : String) (args : List String) : Option String :=
   match op, args with
@@ -341,6 +363,32 @@ def handle (op : String) (args : List String) : Option String :=
   | "pipe", [p] => do
     let p ← whole parsePipe p
     pure (diagPipe p)
+  | "top", [c] => do
+    let c ← whole parseStm c
+    pure (diagTop c)
+  | "path", [dest, t, v, p, how] => do
+    -- LazyArgumentMap.Path(p, t, dest) on the value v (after / before repair 85e056c)
+    let dest ← (if dest == "-" then some none else (whole parseTy dest).map some)
+    let t ← whole parseTy t
+    let v ← whole parseJ v
+    let p ← parseHexList p
+    let r := match p with
+      | [] => (match dest with | some d => wholeRT d v | none => some v)
+      | _ => if how == "old" then pathValG peelMapDOld dest t v p else pathVal dest t v p
+    match r with
+    | some w => pure (showJ w)
+    | none => pure "none"
+  | "hyp", [env, t, e] => do
+    -- the decidable hypotheses of the soundness theorems on one binding
+    let Γ ← whole parseEnv env
+    let t ← whole parseTy t
+    let e ← whole parseExp e
+    pure (" ".intercalate [boolStr t.wf, boolStr e.wf, boolStr (holeFree Γ t e)])
+  | "strict", [env, t, e] => do
+    let Γ ← whole parseEnv env
+    let t ← whole parseTy t
+    let e ← whole parseExp e
+    pure (" ".intercalate [boolStr (validExp Γ t e), boolStr (overStrict Γ t e)])
   | "sretain", [outs, ids] => do
     let outs ← whole (counted parseTyped) outs
     let ids ← parseHexList ids
